@@ -1039,8 +1039,13 @@ fn gen_c11(seed: u64, idx: usize, _tier: Tier) -> (RunScenario, C11Extra) {
         if rng.chance(1, 4) {
             t.commands_path = Some(format!("{}/scripts", path));
         }
-        if rng.chance(1, 4) {
-            t.argmaps_path = Some(if rng.chance(1, 2) { format!("{}/args", path) } else { format!("shared-args/{}", i) });
+        if rng.chance(1, 3) {
+            // own directory inside the target, own directory outside, or one directory shared by several targets
+            t.argmaps_path = Some(match rng.below(3) {
+                0 => format!("{}/args", path),
+                1 => format!("shared-args/{}", i),
+                _ => "shared-args/common".to_string(),
+            });
         }
         let cdir = t.commands_path.clone().unwrap_or_else(|| format!("{}/monorail/cmd", path));
         let adir = t.argmaps_path.clone().unwrap_or_else(|| format!("{}/monorail/argmap", path));
@@ -1086,14 +1091,24 @@ fn gen_c11(seed: u64, idx: usize, _tier: Tier) -> (RunScenario, C11Extra) {
             }
             Value::Object(m).to_string()
         };
+        // a directory shared by several targets holds one set of files, written once
+        let mut put = |files: &mut Vec<(String, String)>, p: String, body: String| {
+            if !files.iter().any(|(f, _)| *f == p) {
+                files.push((p, body));
+            }
+        };
         match rng.below(4) {
             0 => {}
-            1 => argmap_files.push((format!("{}/base.json", adir), "{}".to_string())),
-            _ => argmap_files.push((format!("{}/base.json", adir), mk(&mut rng))),
+            1 => put(&mut argmap_files, format!("{}/base.json", adir), "{}".to_string()),
+            _ => {
+                let b = mk(&mut rng);
+                put(&mut argmap_files, format!("{}/base.json", adir), b)
+            }
         }
         for m in &maps {
             if rng.chance(1, 2) {
-                argmap_files.push((format!("{}/{}.json", adir, m), mk(&mut rng)));
+                let b = mk(&mut rng);
+                put(&mut argmap_files, format!("{}/{}.json", adir, m), b);
             }
         }
         if cmd_files.iter().all(|c| c.target != path) {
